@@ -184,9 +184,10 @@ Qed.
 
 Theorem inv_step f l s s' : goodf f -> Inv s -> step f l s = Some s' -> Inv s'.
 Proof.
-  intros G I. unfold step. destruct (s_panic s); [discriminate|].
+  intros G I. unfold step. destruct (s_panic s); [discriminate|]. destruct (s_hardexit s); [discriminate|].
   destruct l.
-  - destruct (s_stop s); [discriminate|]. intros H; got H.
+  - destruct (1 <=? s_sigs s); [discriminate|].
+    destruct (s_stop s && negb (pf_handler_own_counter f)); intros H; got H;
     destruct (s_c s) eqn:Hc; destruct (s_m s) eqn:Hm; destruct (c_mode (s_cfg s)) eqn:Hmode; fin_inv.
   - destruct (s_open s); [|discriminate]. intros H; got H.
     destruct (s_c s) eqn:Hc; destruct (s_m s) eqn:Hm; destruct (c_mode (s_cfg s)) eqn:Hmode; fin_inv.
